@@ -306,3 +306,39 @@ pub fn kept_update(acc: &mut std::collections::BTreeMap<String, u32>, key: Strin
 pub fn first_wins(acc: &mut std::collections::BTreeMap<String, u32>, key: String, value: u32) {
     acc.entry(key).or_insert(value);
 }
+
+// ---- C04.8 controls: a vector indexed by the counter of a counted loop ----
+pub fn counted_index_drift(prefix: &mut Vec<u32>, rest: u32, wanted: usize) -> u32 {
+    // pads a COPY and raises the bound, then indexes a clone of the unpadded original
+    let mut members = prefix.clone();
+    let mut len = members.len();
+    if len < wanted {
+        for _i in len..wanted {
+            members.push(rest);
+        }
+        len = wanted;
+    }
+    let mut acc = 0;
+    for i in 0..len {
+        let mut s = prefix.clone();
+        s[i] = members[i]; // flagged: `s` has the old length
+        acc += s[i];
+    }
+    acc
+}
+pub fn counted_index_tied(prefix: &mut Vec<u32>, rest: u32, wanted: usize) -> u32 {
+    let mut len = prefix.len();
+    if len < wanted {
+        for _i in len..wanted {
+            prefix.push(rest);
+        }
+        len = wanted;
+    }
+    let mut acc = 0;
+    for i in 0..len {
+        let mut s = prefix.clone();
+        s[i] += 1;
+        acc += s[i] + prefix[i];
+    }
+    acc
+}
